@@ -17,6 +17,10 @@ add("C03","E1 enum","exploration",
     "Every multiplication/squaring form (split, widening, wrapping, checked, saturating, operators by value/ref/assign, Wrapping, Checked; Uint<1..12,16,32,64,128> equal and mixed widths; BoxedUint 1..=140 limbs incl. unequal lengths around the Karatsuba thresholds) applied to the complete product of operand generators whose run boundaries include every half/quarter point of every Karatsuba level; compared with the exact BigUint product; an oracle-side classifier counts the (level, sign-case) pairs reached.",
     ASSUME, "bounded-exhaustive enumeration of operand shapes x forms on the real code against a BigUint reference model", "DESIGN.md §3.C03")
 
+add("C02","E1 enum","exploration",
+    "Every division/remainder form (112 forms: div_rem, _vartime with equal and mixed divisor width, rem, rem_wide_vartime, by limb with/without reciprocal, checked, wrapping, operators, assigning, Wrapping, traits; Uint<1,2,3,4,6,8,16,32,64>; BoxedUint with independent dividend/divisor precision 1..=70 limbs) applied to complete dividend x divisor products incl. every divisor bit length, NEAR(q*d) dividends, the textbook add-back vectors; rem2k for every k. Compared with BigUint q, r AND the identity n=q*d+r, r<d. An oracle-side Knuth-D classifier counts add-back / capped-estimate / lshift=0 hits (all non-zero).",
+    ASSUME, "bounded-exhaustive enumeration of operand shapes x forms on the real code against a BigUint reference model, with path-class hit counting", "DESIGN.md §3.C02")
+
 NOT_YET = {}
 ALL = [f"C{i:02d}" for i in range(1,21)]
 import os, sys
